@@ -23,6 +23,7 @@ theorem mutex_step (cfg : Cfg) (st : State) (t : Tid) (h : Mutex st) : Mutex (st
   cases hpc : (st.threads t).pc <;> simp only [step, hpc]
   all_goals (try split)
   all_goals (try split)
+  all_goals (try split)
   all_goals (by_cases hut : u = t <;> simp_all [Pc.inCS] <;> exact fun e => hut e.symm)
 
 /-- the key whose creator the thread is running / whose object it is about to store -/
@@ -45,6 +46,7 @@ theorem miss_step (cfg : Cfg) (st : State) (t : Tid) (hm : Mutex st) (h : Miss s
   have hcu : (st.threads u).pc.creating = some k → st.lock = some u :=
     fun e => (hm u).1 (creating_inCS e)
   cases hpc : (st.threads t).pc <;> simp only [step, hpc]
+  all_goals (try split)
   all_goals (try split)
   all_goals (try split)
   all_goals (by_cases hut : u = t <;> simp_all [Pc.inCS, setKey])
@@ -80,6 +82,7 @@ theorem mode_step (cfg : Cfg) (st : State) (t : Tid) (h : Mode cfg st) : Mode cf
   have hu := h u
   have ht := h t
   cases hpc : (st.threads t).pc <;> simp only [step, hpc]
+  all_goals (try split)
   all_goals (try split)
   all_goals (try split)
   all_goals (by_cases hut : u = t <;> simp_all [Pc.bypass, Pc.lockedGet, Op.isGet, Res.ofGet])
@@ -119,6 +122,7 @@ theorem refines_step (cfg : Cfg) (st : State) (t : Tid) (hm : Mutex st) (hmiss :
   cases hpc : (st.threads t).pc <;> simp only [step, hpc]
   all_goals (try split)
   all_goals (try split)
+  all_goals (try split)
   all_goals (cases hl : st.lock <;>
     simp_all [Pc.inCS, Pc.creating, Pc.bypass, Pc.pendingStore, specRun, specStep])
   all_goals (try (rename_i w; by_cases hw : w = t <;>
@@ -146,6 +150,7 @@ theorem results_step (cfg : Cfg) (st : State) (t : Tid) (h : Results st) : Resul
   cases hpc : (st.threads t).pc <;> simp only [step, hpc]
   all_goals (try split)
   all_goals (try split)
+  all_goals (try split)
   all_goals (by_cases hut : u = t <;> simp_all [Pc.pendingRes, Ev.tid, Ev.res])
 
 /-- number of the creator invocation that is running in this thread -/
@@ -161,27 +166,170 @@ structure Fresh (st : State) : Prop where
   inflDistinct : ∀ t u c, (st.threads t).pc.inflight = some c → (st.threads u).pc.inflight = some c → t = u
   nodup : (callIds st.hist).Nodup
 
-theorem fresh_step (cfg : Cfg) (st : State) (t : Tid) (h : Fresh st) : Fresh (step cfg st t) := by
-  obtain ⟨h1, h2, h3, h4, h5⟩ := h
-  have h2t := h2 t
-  have h3t := h3 t
-  constructor
-  · intro c
-    have h1c := h1 c
-    cases hpc : (st.threads t).pc <;> simp only [step, hpc]
-    all_goals (try split)
-    all_goals (try split)
-    all_goals (simp_all [callIds, Pc.inflight])
-    all_goals (try omega)
-    all_goals (try (rintro (e | e) <;> first | omega | (have := h1c e; omega)))
-  · intro u c
-    have h2u := h2 u c
-    cases hpc : (st.threads t).pc <;> simp only [step, hpc]
-    all_goals (try split)
-    all_goals (try split)
-    all_goals (by_cases hut : u = t <;> simp_all [Pc.inflight])
-    all_goals (try omega)
-    all_goals (try (intro e; have := h2u e; omega))
-  · sorry
-  · sorry
-  · sorry
+theorem callIds_cons_lt {e : Ev} {h : List Ev} {n : Nat} (he : ∀ c ∈ callIds [e], c < n)
+    (hh : ∀ c ∈ callIds h, c < n) : ∀ c ∈ callIds (e :: h), c < n := by
+  intro c hc
+  cases e <;> simp_all [callIds]
+  all_goals (rcases hc with e | e <;> simp_all)
+
+theorem fresh_histLt (cfg : Cfg) (st : State) (t : Tid)
+    (h1 : ∀ c ∈ callIds st.hist, c < st.calls)
+    (h2t : ∀ c, (st.threads t).pc.inflight = some c → c < st.calls) :
+    ∀ c ∈ callIds (step cfg st t).hist, c < (step cfg st t).calls := by
+  have h1' : ∀ c ∈ callIds st.hist, c < st.calls + 1 := fun c hc => Nat.lt_succ_of_lt (h1 c hc)
+  cases hpc : (st.threads t).pc <;> simp only [step, hpc]
+  all_goals (try split)
+  all_goals (try split)
+  all_goals (try split)
+  all_goals (first | exact h1 | exact h1' | skip)
+  all_goals (apply callIds_cons_lt _ h1; simp_all [callIds, Pc.inflight])
+
+theorem fresh_inflLt (cfg : Cfg) (st : State) (t : Tid)
+    (h2 : ∀ u c, (st.threads u).pc.inflight = some c → c < st.calls) :
+    ∀ u c, ((step cfg st t).threads u).pc.inflight = some c → c < (step cfg st t).calls := by
+  intro u c
+  have h2u := h2 u c
+  have h2t := h2 t c
+  cases hpc : (st.threads t).pc <;> simp only [step, hpc]
+  all_goals (try split)
+  all_goals (try split)
+  all_goals (try split)
+  all_goals (by_cases hut : u = t <;> simp_all [Pc.inflight])
+  all_goals (try omega)
+  all_goals (try (intro e; have := h2u e; omega))
+
+theorem inflight_step (cfg : Cfg) (st : State) (t u : Tid) :
+    ((step cfg st t).threads u).pc.inflight = (st.threads u).pc.inflight ∨
+    (u = t ∧ ((step cfg st t).threads u).pc.inflight = none) ∨
+    (u = t ∧ ((step cfg st t).threads u).pc.inflight = some st.calls) := by
+  cases hpc : (st.threads t).pc <;> simp only [step, hpc]
+  all_goals (try split)
+  all_goals (try split)
+  all_goals (try split)
+  all_goals (by_cases hut : u = t <;> simp_all [Pc.inflight])
+
+theorem fresh_inflDistinct (cfg : Cfg) (st : State) (t : Tid)
+    (h2 : ∀ u c, (st.threads u).pc.inflight = some c → c < st.calls)
+    (h4 : ∀ u w c, (st.threads u).pc.inflight = some c → (st.threads w).pc.inflight = some c → u = w) :
+    ∀ u w c, ((step cfg st t).threads u).pc.inflight = some c →
+      ((step cfg st t).threads w).pc.inflight = some c → u = w := by
+  intro u w c hu hw
+  rcases inflight_step cfg st t u with eu | ⟨eu, eu'⟩ | ⟨eu, eu'⟩ <;>
+  rcases inflight_step cfg st t w with ew | ⟨ew, ew'⟩ | ⟨ew, ew'⟩
+  all_goals (first
+    | (rw [eu] at hu; rw [ew] at hw; exact h4 u w c hu hw)
+    | (rw [eu'] at hu; cases hu; done)
+    | (rw [ew'] at hw; cases hw; done)
+    | (rw [eu, ew])
+    | (rw [eu] at hu; rw [ew'] at hw; cases hw; have := h2 u _ hu; omega)
+    | (rw [ew] at hw; rw [eu'] at hu; cases hu; have := h2 w _ hw; omega))
+
+theorem callIds_cons (e : Ev) (h : List Ev) : callIds (e :: h) = callIds [e] ++ callIds h := by
+  cases e <;> simp [callIds]
+
+/-- how one step changes the history -/
+theorem hist_step (cfg : Cfg) (st : State) (t : Tid) :
+    (step cfg st t).hist = st.hist ∨
+    ∃ e, (step cfg st t).hist = e :: st.hist ∧
+      (callIds [e] = [] ∨
+       ∃ c, (st.threads t).pc.inflight = some c ∧ callIds [e] = [c] ∧
+            ((step cfg st t).threads t).pc.inflight = none) := by
+  cases hpc : (st.threads t).pc <;> simp only [step, hpc]
+  all_goals (try split)
+  all_goals (try split)
+  all_goals (try split)
+  all_goals (simp_all [Pc.inflight, callIds])
+
+theorem fresh_nodup (cfg : Cfg) (st : State) (t : Tid)
+    (h3 : ∀ c, (st.threads t).pc.inflight = some c → c ∉ callIds st.hist)
+    (h5 : (callIds st.hist).Nodup) : (callIds (step cfg st t).hist).Nodup := by
+  rcases hist_step cfg st t with e | ⟨e, he, hc | ⟨c, hc1, hc2, _⟩⟩
+  · rw [e]; exact h5
+  · rw [he, callIds_cons, hc]; exact h5
+  · rw [he, callIds_cons, hc2]
+    exact List.nodup_cons.mpr ⟨h3 c hc1, h5⟩
+
+theorem fresh_inflNotHist (cfg : Cfg) (st : State) (t : Tid)
+    (h1 : ∀ c ∈ callIds st.hist, c < st.calls)
+    (h3 : ∀ u c, (st.threads u).pc.inflight = some c → c ∉ callIds st.hist)
+    (h4 : ∀ u w c, (st.threads u).pc.inflight = some c → (st.threads w).pc.inflight = some c → u = w) :
+    ∀ u c, ((step cfg st t).threads u).pc.inflight = some c → c ∉ callIds (step cfg st t).hist := by
+  intro u c hu
+  have hold : c ∉ callIds st.hist := by
+    rcases inflight_step cfg st t u with eu | ⟨_, eu'⟩ | ⟨_, eu'⟩
+    · rw [eu] at hu; exact h3 u c hu
+    · rw [eu'] at hu; cases hu
+    · rw [eu'] at hu; cases hu; exact fun hc => Nat.lt_irrefl _ (h1 _ hc)
+  rcases hist_step cfg st t with e | ⟨e, he, hc | ⟨c', hc1, hc2, hc3⟩⟩
+  · rw [e]; exact hold
+  · rw [he, callIds_cons, hc]; exact hold
+  · rw [he, callIds_cons, hc2]
+    intro hmem
+    rcases List.mem_cons.mp hmem with e1 | e1
+    · subst e1
+      rcases inflight_step cfg st t u with eu | ⟨eu, eu'⟩ | ⟨eu, eu'⟩
+      · rw [eu] at hu
+        have := h4 u t c hu hc1
+        subst this
+        rw [hc3] at eu; rw [← eu] at hu; cases hu
+      · subst eu; rw [hc3] at hu; cases hu
+      · subst eu; rw [hc3] at hu; cases hu
+    · exact hold e1
+
+theorem fresh_step (cfg : Cfg) (st : State) (t : Tid) (h : Fresh st) : Fresh (step cfg st t) :=
+  ⟨fresh_histLt cfg st t h.histLt (h.inflLt t),
+   fresh_inflLt cfg st t h.inflLt,
+   fresh_inflNotHist cfg st t h.histLt h.inflNotHist h.inflDistinct,
+   fresh_inflDistinct cfg st t h.inflLt h.inflDistinct,
+   fresh_nodup cfg st t (h.inflNotHist t) h.nodup⟩
+
+def Ev.isHit : Ev → Bool
+  | .hit _ _ _ => true
+  | _ => false
+
+/-- with `no_cache` the table is never written and nothing is ever served from it -/
+def Bypass (cfg : Cfg) (st : State) : Prop :=
+  cfg.noCache = true → st.cache = cfg.seed ∧ ∀ e ∈ st.hist, e.isHit = false
+
+theorem bypass_step (cfg : Cfg) (st : State) (t : Tid) (hmode : Mode cfg st) (h : Bypass cfg st) :
+    Bypass cfg (step cfg st t) := by
+  intro hnc
+  obtain ⟨h1, h2⟩ := h hnc
+  have hmo := (hmode t).2 hnc
+  cases hpc : (st.threads t).pc <;> simp only [step, hpc]
+  all_goals (try split)
+  all_goals (try split)
+  all_goals (try split)
+  all_goals (simp_all [Pc.lockedGet, Op.isGet, Res.ofGet, Ev.isHit])
+
+/-- the inductive invariant -/
+structure Inv (cfg : Cfg) (st : State) : Prop where
+  mutex : Mutex st
+  miss : Miss st
+  mode : Mode cfg st
+  refines : Refines cfg st
+  results : Results st
+  fresh : Fresh st
+  bypass : Bypass cfg st
+
+theorem inv_init (cfg : Cfg) (prog : Tid → List Op) : Inv cfg (init cfg prog) := by
+  refine ⟨?_, ?_, ?_, ?_, ?_, ⟨?_, ?_, ?_, ?_, ?_⟩, ?_⟩ <;>
+    simp [init, Mutex, Miss, Mode, Refines, Results, Bypass, Pc.inCS, Pc.creating, Pc.bypass,
+      Pc.lockedGet, effCache, specRun, eventsOf, Pc.pendingRes, callIds, Pc.inflight]
+
+theorem inv_step (cfg : Cfg) (st : State) (t : Tid) (h : Inv cfg st) : Inv cfg (step cfg st t) :=
+  ⟨mutex_step cfg st t h.mutex, miss_step cfg st t h.mutex h.miss, mode_step cfg st t h.mode,
+   refines_step cfg st t h.mutex h.miss h.mode h.refines, results_step cfg st t h.results,
+   fresh_step cfg st t h.fresh, bypass_step cfg st t h.mode h.bypass⟩
+
+theorem inv_run (cfg : Cfg) (sched : List Tid) : ∀ st, Inv cfg st → Inv cfg (run cfg st sched) := by
+  induction sched with
+  | nil => intro st h; exact h
+  | cons t ts ih => intro st h; exact ih _ (inv_step cfg st t h)
+
+/-- every state reachable from an initial state by any schedule satisfies the invariant -/
+theorem inv_reach (cfg : Cfg) (prog : Tid → List Op) (sched : List Tid) :
+    Inv cfg (run cfg (init cfg prog) sched) :=
+  inv_run cfg sched _ (inv_init cfg prog)
+
+end Pypyr.CacheTS
